@@ -109,22 +109,47 @@ def isSmooth : Atom K → Bool
   | .fn _ _ _ => false
   | _ => true
 
+def deltaSel : Atom K → Option (Nat × K × K)
+  | .delta n a b => some (n, a, b)
+  | .tpow _ => none | .lin _ _ => none | .exp _ => none | .trig _ _ _ => none | .hyp _ _ => none
+  | .step _ _ => none | .fn _ _ _ => none
+
+/-- forward steps `u(a t + b)`, `a ≥ 0` -/
+def stepSel : Atom K → Option (K × K)
+  | .step a b => if (0 : K) ≤ a then some (a, b) else none
+  | .tpow _ => none | .lin _ _ => none | .exp _ => none | .trig _ _ _ => none | .hyp _ _ => none
+  | .delta _ _ _ => none | .fn _ _ _ => none
+
+/-- time-reversed steps `u(a t + b)`, `a < 0`: on until `T = −b/a` -/
+def offSel : Atom K → Option K
+  | .step a b => if (0 : K) ≤ a then none else some (-(b / a))
+  | .tpow _ => none | .lin _ _ => none | .exp _ => none | .trig _ _ _ => none | .hyp _ _ => none
+  | .delta _ _ _ => none | .fn _ _ _ => none
+
 /-- meaning of `c · Π atoms` without `fn` atoms.
     * one delta `δ^{(n)}(a t + b) = a^{−(n+1)} δ^{(n)}(t − τ)`, `τ = −b/a`: base term `dl`; a delta before the
       origin contributes nothing to the unilateral transform;
-    * otherwise the product of the steps is `u(t − τ)`, `τ = max(0, delays)`: whatever the signal does before
-      `t = 0` is ignored;
+    * otherwise the product of the forward steps (`a ≥ 0`) is `u(t − τ)`, `τ = max(0, delays)`: whatever the signal
+      does before `t = 0` is ignored; time-reversed steps `u(a t + b)`, `a < 0` (signal switched off at `T = −b/a`)
+      turn it into the window `u(t − τ) − u(t − T)` (`T` the smallest switch-off time), or into 0 when `T ≤ τ`;
     * a delta multiplied by a step is outside the supported class (`none`). -/
 def semSimple (E : K → K) (J : K) (c : K) (atoms : List (Atom K)) : Option (ExpPoly K) :=
-  let deltas := atoms.filterMap (fun x => match x with | .delta n a b => some (n, a, b) | _ => none)
-  let steps := atoms.filterMap (fun x => match x with | .step a b => some (a, b) | _ => none)
+  let deltas := atoms.filterMap deltaSel
+  let steps := atoms.filterMap stepSel
+  let offs := atoms.filterMap offSel
   let smooth := atoms.filter isSmooth
   match deltas with
   | [] =>
     let tau := steps.foldl (fun (m : K) (ab : K × K) => if m ≤ -(ab.2 / ab.1) then -(ab.2 / ab.1) else m) 0
-    some (smooth.foldl (applySmooth E J) [.ep c 0 0 tau])
+    match offs with
+    | [] => some (smooth.foldl (applySmooth E J) [.ep c 0 0 tau])
+    | T0 :: Ts =>
+      -- window `u(t − τ) · u(T − t) = u(t − τ) − u(t − T)` for `τ < T` (a.e.), zero when `T ≤ τ`
+      let T := Ts.foldl (fun (m : K) (x : K) => if x ≤ m then x else m) T0
+      if T ≤ tau then some []
+      else some (smooth.foldl (applySmooth E J) [.ep c 0 0 tau, .ep (-c) 0 0 T])
   | [(n, a, b)] =>
-    if steps.length ≠ 0 then none
+    if steps.length ≠ 0 ∨ offs.length ≠ 0 then none
     else
       let tau := -(b / a)
       if (0 : K) ≤ tau then some (smooth.foldl (applySmooth E J) [.dl (c / pw a (n + 1)) n tau])
@@ -213,14 +238,26 @@ def derivUndefFormula (env : Env K) (n : Nat) : K :=
   if env.zic then base
   else (List.range n).foldl (fun acc m => acc - pw env.s (n - m - 1) * icOf env m) base
 
+/-- `clip_step` (the rewriting `term` applies before it hands a product to `sympy.integrate`): a factor
+    `Heaviside(a t + b)` is dropped (replaced by 1) when the GENERATED guard `Gen.clipGuard a b` holds. -/
+def clipAtoms (atoms : List (Atom K)) : List (Atom K) :=
+  atoms.filter (fun x => match x with
+    | .step a b => !(Gen.clipGuard a b)
+    | _ => true)
+
+/-- the branch delegated to `sympy.integrate`: SymPy's integral itself is not modelled (it is taken to be the
+    integral over `t ≥ 0⁻` of what it is given), but what it is given is: the product after `clip_step`. -/
+def sympyBranch (env : Env K) (c : K) (fs : List (Atom K)) : Branch × Option K :=
+  (.sympy, specValue env (.prod c (clipAtoms fs)))
+
 /-- What `LaplaceTransformer.term` computes for a raw term: the branch taken and, for branches with
-    their own formula, the value at `env.s`.  Branch `sympy` = delegated to `sympy.integrate`
-    (not modelled: the caller uses the specification value there). -/
+    their own formula, the value at `env.s`.  Branch `sympy` = delegated to `sympy.integrate` after `clip_step`
+    (`sympyBranch`). -/
 def lcapyTerm (env : Env K) : Raw K → Branch × Option K
   | .prod c fs =>
     let s := env.s
     -- sinh/cosh are rewritten to exponentials and re-dispatched term by term: always closed forms
-    if fs.any (fun x => match x with | .hyp _ _ => true | _ => false) then (.sympy, none)
+    if fs.any (fun x => match x with | .hyp _ _ => true | _ => false) then sympyBranch env c fs
     else
     match normAtoms fs with
     | [] => (.const, some (c / s))
@@ -228,9 +265,9 @@ def lcapyTerm (env : Env K) : Raw K → Branch × Option K
     | [.trig isCos w ph] => (.sinCos, some (c * sinCosFormula env 0 isCos w ph 0))
     | [.exp a, .trig isCos w ph] => (.sinCos, some (c * sinCosFormula env a isCos w ph 0))
     | [.trig isCos w ph, .step a b] =>
-        if a = 1 then (.sinCos, some (c * sinCosFormula env 0 isCos w ph (-b))) else (.sympy, none)
+        if a = 1 then (.sinCos, some (c * sinCosFormula env 0 isCos w ph (-b))) else sympyBranch env c fs
     | [.exp al, .trig isCos w ph, .step a b] =>
-        if a = 1 then (.sinCos, some (c * sinCosFormula env al isCos w ph (-b))) else (.sympy, none)
+        if a = 1 then (.sinCos, some (c * sinCosFormula env al isCos w ph (-b))) else sympyBranch env c fs
     | [.fn f a b] =>
         if b = 0 then
           (.function, some (c * (match f with
@@ -238,8 +275,8 @@ def lcapyTerm (env : Env K) : Raw K → Branch × Option K
             | .tri => Gen.triEntry env.E s a
             | .ramp => Gen.rampEntry env.E s a
             | .rampstep => Gen.rampstepEntry env.E s a)))
-        else (.sympy, none)
-    | _ => (.sympy, none)
+        else sympyBranch env c fs
+    | _ => sympyBranch env c fs
   | .undef c a b =>
       -- `func`: X(s/scale)/|scale| · exp(s·shift/scale)   (scale > 0 in the generated class)
       (.func, some (c * (Xof env (env.s / a) / a * (if b = 0 then 1 else env.E (env.s * b / a)))))
